@@ -96,6 +96,19 @@ Theorem C07_vm_set_in_place_or_append :
 Proof. exact vm_set_in_place_or_append. Qed.
 Print Assumptions C07_vm_set_in_place_or_append.
 
+(* set-then-get through ANY key of the domain, when the key test is an equivalence there (for the VM's == this
+   is the case on nil, integers, strings by content, functions; for reals it is the symmetry and transitivity
+   of the float instance's comparison, which the generic model does not fix) *)
+Theorem C07_vm_set_then_get :
+  forall (eq : eqfun) (D : value -> Prop),
+    (forall a, D a -> kb eq a a = true) ->
+    (forall a b, D a -> D b -> kb eq a b = true -> kb eq b a = true) ->
+    (forall a b c, D a -> D b -> D c -> kb eq a b = true -> kb eq b c = true -> kb eq a c = true) ->
+    forall m k v k2, Forall D (map fst m) -> D k -> D k2 ->
+      al_get eq k2 (al_set eq k v m) = if kb eq k k2 then Some v else al_get eq k2 m.
+Proof. exact al_get_set_law. Qed.
+Print Assumptions C07_vm_set_then_get.
+
 (* append: never runs out of probes (pigeonhole over the aligned parts) and stores the value at the end under
    the least integer key >= the number of entries that is not a key of the table *)
 Theorem C07_vm_table_append :
